@@ -27,6 +27,11 @@
 #endif
 #include "h.h"
 #include "mini_mir_pre.h"
+#if H_CBMC /* CBMC's free() records the block non-deterministically (a nondet flag per call): under --paths every such flag multiplies the paths.
+              Blocks are never reused or inspected here (allocation discipline is C17's subject), so freeing is a no-op in the model. */
+#undef MIR_free
+#define MIR_free(alloc, ptr) ((void) (alloc), (void) (ptr), h_native_frees++)
+#endif
 #include "thunk_stubs.h"
 #include "mir.c"
 #include "mini_mir.h"
